@@ -90,13 +90,30 @@ func NewMarchingCanvas(cubesPerUnit float64) *MarchingCanvas {
 	}
 }
 
-func (d MarchingCanvas) index(x, y, z int) int {
+// index has a pointer receiver on purpose: a value receiver copies the whole
+// canvas, block list header included, on every call, and the workers of
+// AddFieldParallel call it per sample while other workers append blocks.
+func (d *MarchingCanvas) index(x, y, z int) int {
 	return (z * marchingSectionSizeSquared) + (y * marchingSectionSize) + x
 }
 
 func (d *MarchingCanvas) chunkIndex_atomic(section *marchingSection, vec modeling.VectorInt) int {
 	d.chunkMutex.Lock()
 	defer d.chunkMutex.Unlock()
+	return d.chunkIndex(section, vec)
+}
+
+// float1Chunk_atomic returns the block at vec, allocating it when missing. The
+// block list is read under chunkMutex as well: another worker may be
+// appending to it.
+func (d *MarchingCanvas) float1Chunk_atomic(section *marchingSection, vec modeling.VectorInt) float1MarchingSection {
+	d.chunkMutex.Lock()
+	defer d.chunkMutex.Unlock()
+	return d.float1Data[d.chunkIndex(section, vec)]
+}
+
+// chunkIndex must be called with chunkMutex held
+func (d *MarchingCanvas) chunkIndex(section *marchingSection, vec modeling.VectorInt) int {
 	chunkIndex, ok := section.positions[vec]
 	if !ok {
 		switch section.dataType {
@@ -162,7 +179,10 @@ func (d MarchingCanvas) fieldBounds(f Field) (modeling.VectorInt, modeling.Vecto
 	return minCanvas, maxCanvas
 }
 
-func (d MarchingCanvas) getSection(attribute string, dataType MarchingDataType) *marchingSection {
+// getSection has a pointer receiver: AddFieldParallel calls it while its
+// workers already append blocks, a value receiver would copy the block list
+// header unsynchronized.
+func (d *MarchingCanvas) getSection(attribute string, dataType MarchingDataType) *marchingSection {
 	if section, ok := d.sections[attribute]; ok {
 		if section.dataType != dataType {
 			panic(fmt.Errorf("field already exists with type: %d, can't add type %d", section.dataType, dataType))
@@ -183,8 +203,7 @@ func (d *MarchingCanvas) addFloat1Range(section *marchingSection, chunkPos, min,
 		panic(fmt.Errorf("cant add float1 to section with type of: %d", section.dataType))
 	}
 
-	index := d.chunkIndex_atomic(section, chunkPos)
-	data := d.float1Data[index]
+	data := d.float1Chunk_atomic(section, chunkPos)
 
 	for z := min.Z; z < max.Z; z++ {
 		for y := min.Y; y < max.Y; y++ {
